@@ -181,13 +181,14 @@ type fragInfo struct {
 }
 
 type docGen struct {
-	r        *rng.R
-	s        *schemaDef
-	loose    bool // allow leaving the envelope (case-colliding keys, underscore keys, missing __typename)
-	frags    []*fragInfo
-	fresh    int
-	maxDepth int
-	stats    map[string]bool
+	r         *rng.R
+	s         *schemaDef
+	loose     bool // allow leaving the envelope (case-colliding keys, underscore keys, missing __typename)
+	frags     []*fragInfo
+	fragNames map[string]bool
+	fresh     int
+	maxDepth  int
+	stats     map[string]bool
 }
 
 var aliasPool = []string{"x", "y", "alias", "Alias_1", "myField", "my_field", "K", "data", "value", "n2", "Zz", "aB", "the_id", "URL2", "t"}
@@ -242,6 +243,7 @@ func (g *docGen) genSels(t string, sc *scope, lp string, depth int) []*sel {
 	d := g.s.byName[t]
 	var out []*sel
 	abstract := d.kind != "obj"
+	subScopes := map[*sel]*scope{}
 	// fields
 	if d.kind != "union" {
 		n := r.Range(1, 3)
@@ -287,12 +289,38 @@ func (g *docGen) genSels(t string, sc *scope, lp string, depth int) []*sel {
 				continue
 			}
 			if !leaf {
-				s.sels = g.genSels(base, newScope(), "", depth+1)
+				subScopes[s] = newScope()
+				s.sels = g.genSels(base, subScopes[s], "", depth+1)
 				if len(s.sels) == 0 {
 					continue
 				}
 			}
 			out = append(out, s)
+		}
+		// a response key selected more than once (valid GraphQL: the selections are merged); the
+		// sub-selections of a composite field share one scope, so they can be merged
+		if len(out) > 0 && r.Chance(1, 6) {
+			nd := r.Range(1, 2)
+			for i := 0; i < nd; i++ {
+				o := out[r.Intn(len(out))]
+				if o.kind != 'f' {
+					continue
+				}
+				dup := &sel{kind: 'f', alias: o.alias, name: o.name}
+				if sc2 := subScopes[o]; sc2 != nil {
+					g.fresh++
+					dup.sels = g.genSels(d.field(o.name).typ.unwrap(), sc2, fmt.Sprintf("dup%d", g.fresh), depth+1)
+					if len(dup.sels) == 0 {
+						continue
+					}
+					g.stats["repeated-composite-key"] = true
+				}
+				g.stats["repeated-key"] = true
+				pos := r.Intn(len(out) + 1)
+				out = append(out, nil)
+				copy(out[pos+1:], out[pos:])
+				out[pos] = dup
+			}
 		}
 	}
 	// fragments
@@ -438,12 +466,15 @@ func (g *docGen) pickFragment(t string, sc *scope, depth int) *fragInfo {
 	cands := g.condCandidates(t)
 	c := rng.Pick(r, cands)
 	name := rng.Pick(r, fragNamePool)
-	for _, f := range g.frags {
-		if f.def.name == name {
-			g.fresh++
-			name = fmt.Sprintf("%s%d", name, g.fresh)
-		}
+	if g.fragNames == nil {
+		g.fragNames = map[string]bool{}
 	}
+	for g.fragNames[name] {
+		g.fresh++
+		name = fmt.Sprintf("%s%d", name, g.fresh)
+	}
+	// reserved before the body is generated: the body may define further fragments
+	g.fragNames[name] = true
 	inner := newScope()
 	body := g.genSels(c, inner, "", depth+1)
 	if len(body) == 0 {
